@@ -218,6 +218,106 @@ def driver_correspondence(chk):
                 'replay': f"echo '{json.dumps({'cases': [case]})}' | {common.PY} tools/checks/c03_probe.py {common.REPO} driver"})
             return
 
+def run_cli_pty(args, cwd, term, hashseed='0', timeout=60):
+    """the real CLI with stdout = the slave side of a pseudo-terminal (stderr to a file); -> bytes read from the master side"""
+    import pty, select, tempfile, time
+    master, slave = pty.openpty()
+    env = dict(os.environ, PYTHONHASHSEED=str(hashseed), PYTHONDONTWRITEBYTECODE='1', XDG_CACHE_HOME=os.path.join(cwd, '.cache'), LC_ALL='C.UTF-8', TERM=term)
+    env.pop('PYTHONIOENCODING', None)
+    with tempfile.TemporaryFile() as errf:
+        try:
+            p = subprocess.Popen(E.cli_cmd() + list(args), cwd=cwd, env=env, stdin=subprocess.DEVNULL, stdout=slave, stderr=errf, close_fds=True)
+        finally:
+            os.close(slave)
+        chunks, deadline, timed_out = [], time.time() + timeout, False
+        while True:
+            left = deadline - time.time()
+            if left <= 0:
+                timed_out = True
+                p.kill()
+                break
+            r, _w, _x = select.select([master], [], [], min(left, 1.0))
+            if not r:
+                if p.poll() is not None:
+                    # the child is gone and nothing is pending
+                    r, _w, _x = select.select([master], [], [], 0)
+                    if not r:
+                        break
+                continue
+            try:
+                data = os.read(master, 65536)
+            except OSError:          # EIO: every slave descriptor is closed
+                break
+            if not data:
+                break
+            chunks.append(data)
+        os.close(master)
+        try:
+            rc = p.wait(timeout=10)
+        except subprocess.TimeoutExpired:
+            p.kill()
+            rc = None
+        errf.seek(0)
+        err = errf.read().decode('utf-8', 'backslashreplace')
+    return {'rc': rc, 'stdout': b''.join(chunks), 'stderr': err, 'timeout': timed_out}
+
+def terminal_runs(chk, wd, stable, cls, found, suspects):
+    """the KIND OF STDOUT as one more dimension of 'for every -j': a pseudo-terminal with several TERM values, and a pipe with several
+    PYTHONIOENCODING values (initialize_terminal reconfigures stdout).  Always compared on the same kind of stdout, byte for byte."""
+    rng = chk.rng
+    content = lambda f: open(os.path.join(wd.path, f), 'rb').read().decode('utf-8', 'replace')
+    pick = [f for f in stable if cls[f] in ('flags', 'xml')][:4] + [f for f in stable if cls[f].startswith('cs:')][:1]
+    stats = {'pty_runs': 0, 'pipe_runs': 0, 'coloured_outputs': 0, 'terms': [], 'encodings': []}
+    # 1. pseudo-terminal
+    terms = ['ansi', 'xterm', 'dumb', 'linux'] if chk.thorough else ['ansi', 'xterm', 'dumb']
+    plan = []
+    for term in terms:
+        js = ['1', '2', '3'] if term != 'dumb' or chk.thorough else ['2']
+        plan += [(term, None, [f]) for f in pick] + [(term, j, pick) for j in js]
+    outs = E.parallel(lambda r: run_cli_pty((['-j', r[1]] if r[1] else []) + r[2], wd.path, r[0]), plan, workers=WORKERS)
+    stats['pty_runs'] = len(plan)
+    stats['terms'] = terms
+    chk.evaluations += len(plan)
+    single = {(term, fl[0]): o for (term, j, fl), o in zip(plan, outs) if j is None}
+    stats['coloured_outputs'] = sum(1 for o in outs if b'\x1b[' in o['stdout'])
+    for (term, j, fl), o in zip(plan, outs):
+        if j is None:
+            continue
+        if any(single[(term, f)]['rc'] != 0 or single[(term, f)]['timeout'] for f in fl):
+            continue
+        exp = b''.join(single[(term, f)]['stdout'] for f in fl)
+        if o['stdout'] != exp or o['rc'] != 0:
+            k = next((i for i in range(min(len(exp), len(o['stdout']))) if exp[i] != o['stdout'][i]), min(len(exp), len(o['stdout'])))
+            found.append({'kind': 'terminal', 'stdout_is': 'pseudo-terminal (pty.openpty, slave side)', 'TERM': term, 'argv': ['i18nspector', '-j', j] + fl,
+                          'files': fl, 'contents': [content(f)[:1500] for f in fl],
+                          'expected_concatenation_of_single_file_runs_on_the_same_terminal': repr(exp[max(0, k - 80):k + 200]),
+                          'got': repr(o['stdout'][max(0, k - 80):k + 200]), 'first_differing_byte': k, 'rc': o['rc'], 'stderr': o['stderr'][-400:],
+                          'replay': 'python3 -c "import pty,os,sys; pty.spawn(sys.argv[1:])" env TERM=%s %s %s -j %s %s  (in a directory with the files)' %
+                                    (term, common.PY, os.path.join(common.REPO, 'i18nspector'), j, ' '.join(fl)),
+                          'suspect_sites': suspects[:8]})
+            break
+    # 2. pipe, several stdout encodings / error handlers
+    encs = ['ascii', 'latin-1:strict', 'utf-8', 'utf-8:surrogateescape', 'ascii:replace'] if chk.thorough else ['ascii', 'latin-1:strict', 'utf-8']
+    pick2 = [f for f in stable if cls[f].startswith('cs:')][:2] + [f for f in stable if cls[f] == 'flags'][:2]
+    plan = []
+    for enc in encs:
+        plan += [(enc, None, [f]) for f in pick2] + [(enc, j, pick2) for j in ('1', '2')]
+    outs = E.parallel(lambda r: E.run_cli((['-j', r[1]] if r[1] else []) + r[2], wd.path, hashseed='0', extra_env={'PYTHONIOENCODING': r[0]}), plan, workers=WORKERS)
+    stats['pipe_runs'] = len(plan)
+    stats['encodings'] = encs
+    chk.evaluations += len(plan)
+    single = {(enc, fl[0]): o for (enc, j, fl), o in zip(plan, outs) if j is None}
+    for (enc, j, fl), o in zip(plan, outs):
+        if j is None or any(single[(enc, f)]['rc'] != 0 for f in fl):
+            continue
+        exp = ''.join(single[(enc, f)]['stdout'] for f in fl)
+        if o['stdout'] != exp or o['rc'] != 0:
+            found.append({'kind': 'stdout-encoding', 'stdout_is': 'pipe', 'PYTHONIOENCODING': enc, 'argv': ['i18nspector', '-j', j] + fl, 'files': fl,
+                          'contents': [content(f)[:1500] for f in fl], 'expected': exp[:1500], 'got': o['stdout'][:1500], 'rc': o['rc'], 'stderr': o['stderr'][-400:],
+                          'suspect_sites': suspects[:8]})
+            break
+    chk.coverage['terminal'] = stats
+
 def cache_correspondence(chk):
     """the cache model of Model/CliState.lean against a REAL functools.lru_cache inside the REAL check_all (stub check_file decoding texts
     through one memoised function): keyed on all inputs (any job count) and keyed on less (sequential: the stale values are deterministic);
@@ -274,7 +374,7 @@ def main():
         suspects += [s['key'] + ' [unsorted: ' + s['consumer'] + ']' for s in scan_sites['iter'] if s['verdict'] == 'unsorted']
         suspects += [s['key'] + ' [' + s['root'] + ']' for s in scan_sites['mut'].sites if s['root'] not in ('localFresh', 'closure', 'selfAttr', 'perCallParam', 'element')]
         suspects += [c['key'] + ' [' + c['role'] + ' not per call]' for c in scan_sites['mut'].creations if not c['perCall']]
-        suspects += [s['key'] + ' [nondeterminism: other]' for s in scan_sites['nondet'] if s['kind'] == 'other']
+        suspects += [s['key'] + ' [nondeterminism: ' + s['kind'] + ']' for s in scan_sites['nondet'] if s['kind'] in ('other', 'terminalProbePerFile')]
     tick('scan')
     driver_correspondence(chk)
     cache_correspondence(chk)
@@ -404,6 +504,8 @@ def main():
                               'expected_block': (table[culprit]['stdout'][:600] if culprit else None), 'got_from_there': got[pos:pos + 600], 'stderr': r['stderr'][-400:],
                               'suspect_sites': suspects[:8]})
         tick('multi_file_runs')
+        terminal_runs(chk, wd, stable, cls, found, suspects)
+        tick('terminal_runs')
         # 4. histories inside ONE process: the real main() with check_all called several times — the same relative paths with OTHER
         #    contents (second directory), reversed, twice in one list, then through the pool
         hand = [f for f in stable if cls[f] in ('flags', 'xml', 'twin:modifier', 'twin:type', 'twin:plural')] + [f for f in stable if cls[f].startswith('cs:')][:4] + [f for f in stable if cls[f] == 'plural'] + \
@@ -509,11 +611,11 @@ def main():
                  'real hash order and OS scheduling are exercised only by the runs (test level)'],
         explanation='PROVED. (1) pins over the inventories regenerated from the source: global_state_sites_benign, unordered_iteration_sites_sorted, lookup_tables_have_distinct_keys, '
                     'per_file_mutations_hit_per_call_objects, accumulators_per_call, nondeterminism_sources_benign. (2) model of main / check_all / check_file_s / check_file with explicit global '
-                    'state (patched flag, caches; per-worker state in the pool): no_history, no_history_perm, multi_file_concat, main_concat_of_single_runs, patch_environment_once; '
-                    'stale_cache_breaks_no_history (what the pureCache pin excludes). (3) hash-order model (set iteration = arbitrary permutation): sorted_kills_order and the per-site '
+                    'state (patched flag, caches; per-worker state in the pool): no_history, no_history_perm, multi_file_concat, main_concat_of_single_runs (for every kind of stdout), colour_independent_of_jobs, patch_environment_once; '
+                    'stale_cache_breaks_no_history, probe_of_swapped_stdout_depends_on_jobs (what the pins exclude). (3) hash-order model (set iteration = arbitrary permutation): sorted_kills_order and the per-site '
                     'corollaries sorted_join/sorted_for/sorted_by_injective_key/any_match/dict_get/best_match/the_only _seed_independent; raw_join_depends_on_seed, tie_in_key_leaks_order. '
                     '(4) jobs_schedule_irrelevant, concat_of_single_runs (stateless model), tied to the real check_all by the check_all correspondence. '
-                    'TEST level: real hash order, real scheduling, and everything the classifier cannot see — the determinism runs.')
+                    'TEST level: real hash order, real scheduling, real terminals (pseudo-terminal runs), and everything the classifier cannot see — the determinism runs.')
 
 if __name__ == '__main__':
     common.main_wrapper(main)
